@@ -209,10 +209,21 @@ let ops_c07 = [
      "OK " ^ Buffer.contents b);
 ]
 
+(* ---------------- eval / C04 ---------------- *)
+let show_res = function Ok v -> "OK " ^ print_val v | Fail -> "FAIL" | Oof -> "OOF"
+let fuel_of s = nat_of_int (int_of_string s)
+let ops_c04 = [
+  "run", (fun f -> (* run <ver> prog env : consensus evaluation model with the executable operator oracle *)
+     show_res (eval opf_exec (nat_of_int 5000) (parse_val f.(2)) (parse_val f.(3))));
+  "opt", (fun f -> match optimize opf_exec (nat_of_int 400) (parse_val f.(1)) with
+     | Done r -> "OK " ^ print_val r | Failed -> "ERR" | OptOof -> "OOF");
+  "sub_args", (fun f -> "OK " ^ print_val (sub_args (parse_val f.(1)) (parse_val f.(2))));
+]
+
 (*OPS-INSERT*)
 
 let all_ops : (string, string array -> string) Hashtbl.t = Hashtbl.create 64
-let () = List.iter (fun l -> List.iter (fun (k, v) -> Hashtbl.replace all_ops k v) l) [ops_c20; ops_c08; ops_c07 (*OPS-LIST*)]
+let () = List.iter (fun l -> List.iter (fun (k, v) -> Hashtbl.replace all_ops k v) l) [ops_c20; ops_c08; ops_c07; ops_c04 (*OPS-LIST*)]
 
 let dispatch (f : string array) : string =
   match Hashtbl.find_opt all_ops f.(0) with
